@@ -65,9 +65,19 @@ def explorer_configs(tier):
              fctx=BOTH, steps=4 if t else 3, items=1, isolate=True, max=500 if t else 50),
         dict(name="mp-nil", prov="mp", kinds=dict(r1="periodicnil", r2="manual"), order=["r1", "r2"], sctx=BOTH,
              fctx=LIVE, steps=4 if t else 3, items=1, isolate=True, max=500 if t else 60),
+        # fault injection (op Fault): failing callbacks / external producers / exporters, processors and exporters
+        # that return errors from Shutdown / ForceFlush -- everything is shut down exactly once all the same
+        dict(name="mp-fault", prov="mp", kinds=dict(r1="manual", r2="periodic"), order=["r1", "r2"], sctx=LIVE, fctx=LIVE,
+             steps=5 if t else 4, items=1, faults=["callback", "producer", "exporter"]),
+        dict(name="tp-fault", prov="tp", kinds=dict(p1="rec", p2="batch", p3="simple"), order=["p1", "p2", "p3"], sctx=LIVE,
+             fctx=LIVE, steps=5 if t else 4, items=1, faults=["comp"]),
+        dict(name="lp-fault", prov="lp", kinds=dict(q1="rec", q2="simple", q3="batch"), order=["q1", "q2", "q3"], sctx=LIVE,
+             fctx=LIVE, steps=5 if t else 4, items=1, faults=["comp"]),
     ]
     if t:
         cfgs += [
+            dict(name="mp-fault-canc", prov="mp", kinds=dict(r1="periodic", r2="periodic"), order=["r1", "r2"], sctx=BOTH,
+                 fctx=BOTH, steps=4, items=1, faults=["callback", "exporter"]),
             dict(name="tp-stock-canc", prov="tp", kinds=dict(p1="batch", p2="simple", p3="rec"), order=["p1", "p2"],
                  sctx=BOTH, fctx=BOTH, steps=4, items=2),
             dict(name="tp-stock-3", prov="tp", kinds=dict(p1="batch", p2="batch", p3="simple"), order=["p1"],
@@ -79,7 +89,7 @@ def explorer_configs(tier):
 def explorer_defs(c):
     ids = list(c["kinds"].keys())
     d = {"KINDS": tla_rec(c["kinds"]), "SCTXS": tla_set(c["sctx"]), "FCTXS": tla_set(c["fctx"]),
-         "MAXSTEPS": c["steps"], "MAXSPANS": c["items"], "MAXITEMS": c["items"]}
+         "MAXSTEPS": c["steps"], "MAXSPANS": c["items"], "MAXITEMS": c["items"], "FAULTS": tla_set(c.get("faults", []))}
     if c["prov"] == "tp":
         d["P"] = tla_set(ids)
         d["INIT"] = tla_seq(c["order"])
@@ -187,7 +197,7 @@ def replay_all(ctx, binp, thorough):
     # vacuity: every call kind was replayed, before and after Shutdown
     need = ["op_Register", "op_Unregister", "op_Shutdown", "op_ForceFlush", "op_Tracer", "op_StartEnd", "op_Logger", "op_Emit",
             "op_Meter", "op_Add", "op_Collect", "op_Shutdown_after_shutdown", "op_StartEnd_after_shutdown",
-            "op_Emit_after_shutdown", "op_Collect_after_shutdown", "op_Unregister_after_shutdown"]
+            "op_Emit_after_shutdown", "op_Collect_after_shutdown", "op_Unregister_after_shutdown", "op_Fault"]
     missing = [k for k in need if not counters.get("all:" + k)]
     if missing:
         ctx.note_inconclusive("vacuity: call kinds never replayed: %s" % missing)
